@@ -277,13 +277,19 @@ def gen_validate_lits(parse) -> str:
     out.append("")
     # freeze_value: isinstance tests in source order
     utree = parse("automata/base/utils.py")
+    # names bound by `from m import X as Y` at module level: Y -> "m.X" (so that an abstract base class
+    # the function tests against is named by what it IS, not by its local alias)
+    aliases = {}
+    for node in utree.body:
+        if isinstance(node, ast.ImportFrom) and node.module and node.module.startswith("collections"):
+            for a in node.names:
+                aliases[a.asname or a.name] = node.module + "." + a.name
     fz = []
     for node in utree.body:
         if isinstance(node, ast.FunctionDef) and node.name == "freeze_value":
             for n in ordered_walk(node):
-                if isinstance(n, ast.If) and isinstance(n.test, ast.Call) and getattr(n.test.func, "id", "") == "isinstance":
-                    ty = n.test.args[1]
-                    tys = [e.id for e in ty.elts] if isinstance(ty, ast.Tuple) else [getattr(ty, "id", "?")]
+                tys = _isinstance_test(n.test, aliases) if isinstance(n, ast.If) else None
+                if tys is not None:
                     ret = "?"
                     for st in n.body:
                         if isinstance(st, ast.Return):
@@ -305,6 +311,36 @@ def gen_validate_lits(parse) -> str:
     out.append("end AV.Gen.Validate")
     out.append("")
     return "\n".join(out)
+
+
+def _isinstance_test(test, aliases=None):
+    """The types of an `isinstance(value, T)` / `isinstance(value, (T1, T2))` test; a conjunction
+    `isinstance(value, T) and not isinstance(value, U)` reads `T&!U`; None when the test is
+    anything else.  Names imported under an alias are resolved through `aliases`."""
+    aliases = aliases or {}
+
+    def name(e):
+        i = getattr(e, "id", "?")
+        return aliases.get(i, i)
+
+    def one(call):
+        if isinstance(call, ast.Call) and getattr(call.func, "id", "") == "isinstance" and len(call.args) == 2:
+            ty = call.args[1]
+            return [name(e) for e in ty.elts] if isinstance(ty, ast.Tuple) else [name(ty)]
+        return None
+    pos = one(test)
+    if pos is not None:
+        return pos
+    if isinstance(test, ast.BoolOp) and isinstance(test.op, ast.And):
+        parts = []
+        for v in test.values:
+            neg = isinstance(v, ast.UnaryOp) and isinstance(v.op, ast.Not)
+            t = one(v.operand if neg else v)
+            if t is None:
+                return None
+            parts.append(("!" if neg else "") + ",".join(t))
+        return ["&".join(parts)]
+    return None
 
 
 # ------------------------------------------------------------------ documented exceptions
